@@ -528,7 +528,7 @@ func TestVerifC29(t *testing.T) {
 		Obs []string `json:"obs"`
 		Raw []string `json:"raw"`
 	}
-	var doc corpusDoc
+	doc := corpusDoc{Env: []string{}, Obs: []string{}, Raw: []string{}}
 	encode := func(list []Envelope) [][]byte {
 		var out [][]byte
 		for _, e := range list {
